@@ -113,7 +113,7 @@ Proof.
     simpl in ND. inversion ND as [|? ? Hx ND']; subst. destruct (Nat.eqb k t); simpl; [auto|].
     constructor; [|auto]. intro H. apply Hx. apply in_map_iff in H as (y & E & Hy).
     apply filter_In in Hy as [Hy _]. apply in_map_iff. eauto. }
-  destruct op as [t p|t|d|d|]; simpl.
+  destruct op as [t p|t e|t|d|d|]; simpl.
   - rewrite map_app. simpl.
     assert (Hn : ~ In t (map fst (s_del s t))) by (rewrite <- s_mem_In, s_del_not_mem; discriminate).
     specialize (Hdel t). revert Hdel Hn. generalize (map fst (s_del s t)). intros l.
@@ -121,8 +121,38 @@ Proof.
     inversion ND1; subst. constructor.
     + rewrite in_app_iff. simpl. intuition congruence.
     + apply IH; tauto.
+  - exact ND.
   - destruct (s_mem s t); simpl; auto.
   - destruct (best s) as [[t0 p0]|]; simpl; auto.
   - destruct (best s) as [[t0 p0]|]; simpl; auto.
   - exact ND.
+Qed.
+
+(* an operation that raises leaves the queue unchanged (add with a rejected priority - fresh or
+   live task -, remove of an absent task, pop/peek on an empty queue without default) *)
+Theorem error_leaves_unchanged s op s' e : spec_step s op = (s', OErr e) -> s' = s.
+Proof.
+  destruct op as [t p|t e0|t|d|d|]; simpl.
+  - intro H; inversion H.
+  - now intros [= <- _].
+  - destruct (s_mem s t); intro H; inversion H; reflexivity.
+  - destruct (best s) as [[t0 p0]|]; [intro H; inversion H|]. now intros [= <- _].
+  - destruct (best s) as [[t0 p0]|]; [intro H; inversion H|]. now intros [= <- _].
+  - intro H; inversion H.
+Qed.
+
+(* ... and so does every operation that does not return normally-with-effect: the only
+   observations after which the state differs are ONone (add/remove) and OTask (pop) *)
+Theorem only_add_remove_pop_change s op s' o :
+  spec_step s op = (s', o) -> s' <> s ->
+  (exists t p, op = Add t p /\ o = ONone) \/ (exists t, op = Remove t /\ o = ONone) \/
+  (exists d t, op = Pop d /\ o = OTask t).
+Proof.
+  destruct op as [t p|t e0|t|d|d|]; simpl.
+  - intros [= <- <-] _. left. eauto.
+  - intros [= <- _] H. congruence.
+  - destruct (s_mem s t); intros [= <- <-] H; [right; left; eauto|congruence].
+  - destruct (best s) as [[t0 p0]|]; intros [= <- <-] H; [right; right; eauto|congruence].
+  - destruct (best s) as [[t0 p0]|]; intros [= <- _] H; congruence.
+  - intros [= <- _] H. congruence.
 Qed.
